@@ -22,13 +22,15 @@ package tink
 //@ ensures[C16:layout-valid] err == nil ==> result != nil && result.pos == 0 && result.segIndex == -1 && specReaderInv(result)
 
 // loadSegment: on success segment j is the buffered, authenticated segment; on failure the reader is unchanged, so a
-// later Read cannot serve bytes of a segment that failed authentication.
+// later Read cannot serve bytes of a segment that failed authentication; a ciphertext stream that ends early is an
+// error, never a clean io.EOF (which Read would pass on as the end of the plaintext).
 //@ func (*seekableDecryptingReader).loadSegment
 //@ arith int
 //@ requires specReaderInv(s) && 0 <= j && j < s.numSegments && s.base >= 0 && s.base <= 1152921504606846976
 //@ assigns s.segIndex s.segStart s.plaintext s.segBuf
 //@ frame
 //@ ensures[C16:load-ok] err == nil ==> s.segIndex == j && specReaderInv(s)
+//@ ensures[C16:load-error-not-eof] err != io.EOF
 //@ ensures[C16:load-failed-unchanged] err != nil ==> s.segIndex == old(s.segIndex) && s.segStart == old(s.segStart) &&
 //@     len(s.plaintext) == old(len(s.plaintext)) && specReaderInv(s)
 
@@ -49,6 +51,7 @@ package tink
 //@ func (*seekableDecryptingReader).Seek
 //@ arith int
 //@ requires specReaderInv(s) && offset >= -1152921504606846976 && offset <= 1152921504606846976
+//@ requires s.pos <= 2305843009213693952 && s.plaintextLen <= 2305843009213693952
 //@ assigns s.pos
 //@ frame
 //@ ensures[C16:seek-inv] specReaderInv(s)
